@@ -8,6 +8,7 @@ mod c13;
 mod tok;
 mod mgen;
 mod c01;
+mod extract;
 mod jsonmut;
 
 use std::collections::HashMap;
@@ -51,6 +52,7 @@ fn main() {
         "c12" => c12::run(&o),
         "c13" => c13::run(&o),
         "c01" => c01::run(&o),
+        "extract" => extract::run(&o),
         "c09" => c01::run_c09(&o),
         other => {
             eprintln!("unknown stream {other}");
